@@ -32,6 +32,6 @@ if not any(isinstance(f, _TSEFinder) for f in sys.meta_path):
 
 import warnings  # noqa: E402
 import torch     # noqa: E402  (the model)
-assert getattr(torch, '__version__', '').startswith('symtorch'), 'real torch on path'
+assert getattr(torch, '__version__', '').endswith('symtorch'), 'real torch on path'
 import fggs      # noqa: E402
 assert os.path.realpath(fggs.__file__).startswith(os.path.realpath(REPO)), fggs.__file__
